@@ -249,6 +249,11 @@ func c10Body(sc c10Scn, tracing bool, res *string) func(x *sched.Exec) {
 						tp.RegisterSpanProcessor(p2)
 					case "Register3":
 						tp.RegisterSpanProcessor(p3)
+					case "Span2Same": // an unrelated span that is given attributes with the keys the span under test uses
+						_, c := tr.Start(context.Background(), "child")
+						c.SetAttributes(attribute.Int("k", 7), attribute.Int("z", 5), attribute.Int("l", 8))
+						_ = c.(ReadOnlySpan).Attributes()
+						c.End()
 					case "Span2": // an unrelated span of the same tracer: started, given attributes, ended
 						_, c := tr.Start(context.Background(), "child")
 						c.SetAttributes(attribute.Int("q", 9), attribute.Int("r", 8), attribute.Int("t", 7))
@@ -313,6 +318,9 @@ func c10Body(sc c10Scn, tracing bool, res *string) func(x *sched.Exec) {
 			// all-or-nothing mutations
 			r := *copyP
 			has := func(s string) bool { return strings.Contains(r, s) }
+			if sc.atLimit && !has("attrs=[z=0]") {
+				x.Fail("C10|attribute-limit|the attribute set before the limit was reached is not what the snapshot holds", "limit 1, z=0 was set first and later SetAttributes calls used other keys: %s", r)
+			}
 			if has("k=1") != has("l=2") {
 				x.Fail("C10|torn-mutation|SetAttributes", "SetAttributes(k,l) only partly present in the snapshot: %s", r)
 			}
@@ -374,6 +382,7 @@ func c10Jobs(thorough, race bool) []c10Job {
 		{"N-dropped-children", [][]string{{"End"}, {"ChildDropped"}, {"Child"}}, false, "dropSampler"},
 		{"O-registers-racing-unregister", [][]string{{"Unreg1"}, {"Register"}, {"Register3"}}, false, "regRace"},
 		{"P-sampler-reusing-its-attribute-slice", [][]string{{"Attr", "End"}, {"Span2"}}, false, "reuseSampler"},
+		{"Q-atlimit-attr-vs-attributes-of-another-span", [][]string{{"Attr", "End"}, {"Span2Same"}}, true, ""},
 	}
 	p := 3
 	if thorough {
